@@ -121,8 +121,10 @@ class ClohessyWiltshire(AnalyticalPropagator):
             elif isinstance(man, ContinuousMan) and date >= man.start:
                 orb = self._propagate(man.start, orb)
                 if man.check(date):
-                    # If the date of propagation is during a continuous maneuver
-                    return self._propagate(date, orb, man.accel(orb))
+                    # If the date of propagation is during a continuous maneuver.
+                    # The following maneuvers may start before this date: the
+                    # equations being linear, their effects add up
+                    orb = self._propagate(date, orb, man.accel(orb))
                 else:
                     # If the date of propagation is after a continuous maneuver
                     orb = self._propagate(man.stop, orb, man.accel(orb))
